@@ -1,23 +1,27 @@
 import AtreeProofs.Codec.NoPanic
+import AtreeProofs.Codec.NoPanicG
 /-
   C19 — Decoding untrusted bytes never panics or hangs.
   PROPERTY THEOREMS about the byte-level decoder model (`AtreeModel/Codec/Decode.lean`), in which
   every Go slice expression, fixed-offset read, index and `make` of the transcribed decoders carries
   its bounds condition and a violated condition yields the outcome `panic`.
 
-  Scope: `DecodeSlab` for array data slabs (versions 0 and 1), array index slabs (versions 0 and 1)
-  and large-value slabs, the array extra-data section, `NewSlabIDFromRawBytes`, the harness's
-  element / type-info callbacks, and the three header queries of slab.go — for ALL byte strings.
-  NOT covered: map slabs, a version-1 data slab with the has-inlined-slabs bit (the shared
-  inlined-extra-data section) and inlined children: on those inputs the model stops with
-  `error .unsupported` instead of following the Go code, so the theorems say nothing about what the
-  Go code does there (the malformed stream's recover/timeout oracle still runs on them).  Panics
-  inside the CBOR library or the Go runtime are not modelled either (DESIGN.md §7, C19 "Partial").
+  Scope of `decode_never_panics`: `DecodeSlab` for EVERY slab kind and both format versions — array
+  data / index slabs, map data / index / collision-group slabs, large-value slabs, the array and map
+  extra-data sections, the shared inlined-extra-data section (type-info references included),
+  inlined arrays / maps / compact maps (`DecodeInlined*Storable`), collision groups, the harness's
+  element / type-info callbacks with their recursion — for ALL byte strings.
+  Scope of `alloc_linear_flat`: the first part of the decoder (`decodeSlabFlat`: array data / index
+  slabs and large-value slabs without wrappers or inlined children); the bound `allocs ≤ length`
+  does NOT hold for the full decoder (an inlined compact map allocates two slices of its element
+  count), see INTEGRATION-codec2.md.
+  Panics inside the CBOR library or the Go runtime are not modelled (DESIGN.md §7, C19 "Partial").
 
   Termination: every function of the model is accepted by Lean as structurally recursive — the
-  element loop and the child-header loops on their iteration count (which `alloc_linear` bounds by
-  the input length), the CBOR validator `wfRun` on a fuel argument that is the input length.  There
-  is no `partial` definition and no other fuel.
+  element loops and the child-header loops on their iteration count, the CBOR validator `wfRun` on a
+  fuel argument that is the input length, the mutually recursive decoders of nested storables and
+  map elements on a fuel argument that `decodeSlabGen` sets to the input length plus one (exhausted
+  fuel is an `error`, never a `panic`).  There is no `partial` definition in the model.
 -/
 namespace Atree.C19
 open Atree Atree.Codec Atree.Gen
@@ -25,10 +29,7 @@ open Atree Atree.Codec Atree.Gen
 /-- `DecodeSlab` never panics: for every byte string, slab ID and allocation-counter start. -/
 theorem decode_never_panics (bytes : Bytes) (id : SlabID) (n : Nat) :
     decodeSlab id bytes n ≠ .panic := by
-  intro h
-  have := safe_decodeSlab id bytes n
-  rw [h] at this
-  exact this
+  exact NP.ne_panic (np_decodeSlab id bytes) n
 
 /-- The three header queries never panic, and fail exactly on inputs shorter than two bytes. -/
 theorem header_queries_total (bytes : Bytes) (n : Nat) :
@@ -62,11 +63,13 @@ theorem header_queries_ok_iff (bytes : Bytes) (n : Nat) :
       rw [if_pos (by simp [versionAndFlagSize])]
       rfl
 
-/-- Memory: the number of slice elements `DecodeSlab` allocates with `make` (the element slice of a
-    data slab, the two child-header slices of an index slab) is at most the length of the input,
-    whether decoding succeeds or fails. -/
-theorem alloc_linear (bytes : Bytes) (id : SlabID) : (decodeSlab id bytes).run.allocs ≤ bytes.length + 0 :=
-  (safe_decodeSlab id bytes).run_allocs_le
+/-- Memory, first part of the decoder (array data / index slabs, large-value slabs, plain elements):
+    the number of slice elements `DecodeSlab` allocates with `make` (the element slice of a data slab,
+    the two child-header slices of an index slab) is at most the length of the input, whether
+    decoding succeeds or fails.  (This was `alloc_linear` before the model covered maps and inlined
+    slabs; for the full decoder the constant is 2, not 1.) -/
+theorem alloc_linear_flat (bytes : Bytes) (id : SlabID) : (decodeSlabFlat id bytes).run.allocs ≤ bytes.length + 0 :=
+  (safe_decodeSlabFlat id bytes).run_allocs_le
 
 /-- The copies the CBOR library makes in `DecodeBytes` are bounded by the bytes consumed (so, summed
     over a register, by its length): a returned byte string is shorter than what was consumed. -/
